@@ -40,7 +40,8 @@ def rand_controller(rng, idx):
                             "params": [{"kind": "plain", "type": "String", "name": "s"}] * rng.choice([0, 1])})
         else:
             members.append({"t": "field", "name": "svc%d" % j})
-    return {"pkg": rng.choice(["com.app.web", "com.app.api"]), "name": rng.choice(["C%dController", "C%dController", "Testimonial%dController", "Contest%dCaseController"]) % idx, "kind": kind, "ctrl": ctrl,
+    # (one controller in eight has no package declaration: its handlers' package is the empty one, whatever was scanned before it)
+    return {"pkg": rng.choice(["com.app.web", "com.app.api"]) if rng.random() < 0.875 else "", "name": rng.choice(["C%dController", "C%dController", "Testimonial%dController", "Contest%dCaseController"]) % idx, "kind": kind, "ctrl": ctrl,
             "ctrlFirst": rng.random() < 0.75, "cm": cm, "members": members, "otherAnno": rng.random() < 0.2}
 
 
@@ -59,7 +60,7 @@ def anno_of(name, form, path, mattr=None):
 
 def build(ctrl):
     """returns (javagen unit, listener events in walker order, expected APIs per the statement)"""
-    evs = [{"e": "pkg", "name": ctrl["pkg"]}]
+    evs = [{"e": "pkg", "name": ctrl["pkg"]}] if ctrl["pkg"] else []
     imports = ["org.springframework.web.bind.annotation.*"]
     evs.append({"e": "imp", "name": "org.springframework.web.bind.annotation"})
     class_annos, class_evs = [], []
@@ -146,6 +147,8 @@ def rand_project(rng):
         unit, evs, exp = build(c)
         text, _ = javagen.render_unit(unit, rng, wild=rng.choice([0.0, 0.0, 0.03]), comments=["@GetMapping", "note"])
         path = "src/main/java/%s/%s.java" % (c["pkg"].replace(".", "/"), c["name"])
+        if not c["pkg"]:
+            path = rng.choice(["src/main/java/%s.java", "tools/%s.java"]) % c["name"]      # (scanned before / after the packaged files)
         built.append((path, text, evs, exp, c))
     built.sort(key=lambda b: b[0].split("/"))
     for path, text, evs, exp, c in built:
